@@ -321,6 +321,11 @@ OwnDoc(x, c) == CASE x.fam = "hist"  -> KindDoc(x.h[c])
 SuiteDoc(x, u) == CASE x.fam = "merge" -> (IF u = 0 THEN ProbeDoc("suite", x.s0) ELSE ProbeDoc("sub", x.s1))
                     [] x.fam = "sds"   -> SdsDoc(x.sk)
                     [] x.fam = "sym"   -> SymDoc(x.sk)
+                    \* family hist: when the first case changes the configuration in its [conf], the suite has a [conf] of
+                    \* its own with a test-case instruction that names the default (actor = command line): the [conf]
+                    \* of a case is merged with a COPY of what the suite supplies
+                    [] x.fam = "hist" /\ x.h # <<>> /\ x.h[1][1] \in {"statusFail", "statusSkip", "actorNull", "homeConf"}
+                                       -> DocFrom("suite", [EmptyDoc EXCEPT !["conf"] = <<I("actor", "command", "", NoVal)>>])
                     [] OTHER           -> EmptyDoc
 \* [conf] sets a preprocessor: family merge when the suite has a [conf]; family sym always (SEVERAL cases of one suite
 \* go through the same preprocessor, each with its own file)
